@@ -353,7 +353,19 @@ class Renderer:
         self.nt_count = 0
 
     def expr(self, t, quoted_ctx):
-        """quoted_ctx: the expression ends up inside a string (or postponed module): bare names for fwd refs"""
+        """quoted_ctx: the expression ends up inside a string (or postponed module): bare names for fwd refs.
+        Every fifth rendered sub-term (by a per-class counter) is wrapped in `typing.Annotated[..., "meta"]`, which is
+        transparent for the classification (metadata does not change what a field is)"""
+        e = self._expr(t, quoted_ctx)
+        self.ann_count = getattr(self, "ann_count", self.uid) + 1
+        # (not inside the base of a NewType: that expression is evaluated eagerly and is not an annotation, so nothing
+        #  strips the metadata there -- outside the annotation grammar of the property)
+        if self.ann_count % 5 == 0 and not getattr(self, "in_nt_base", 0) and t[0] not in ("none", "fwd") \
+                and not (e.startswith('"') or e.endswith('"')):
+            return f'Annotated[{e}, "meta"]'
+        return e
+
+    def _expr(self, t, quoted_ctx):
         k = t[0]
         if k == "atom":
             return {"Literal": 'Literal["a", 1]', "Enum": "Color"}.get(t[1], t[1])
@@ -366,7 +378,11 @@ class Renderer:
             return name if quoted_ctx else f'"{name}"'
         if k == "nt":
             # the base is evaluated eagerly at module level, never quoted (generation keeps fwd refs out of it)
-            base = Renderer.expr(self, t[1], True)
+            self.in_nt_base = getattr(self, "in_nt_base", 0) + 1
+            try:
+                base = Renderer.expr(self, t[1], True)
+            finally:
+                self.in_nt_base -= 1
             name = f"NT{self.nt_count}_{self.uid}"
             self.nt_count += 1
             self.newtypes.append(f'{name} = NewType("{name}", {base})')
@@ -429,7 +445,7 @@ class C11Color(Enum):
 PRELUDE = """
 from dataclasses import dataclass
 from enum import Enum
-from typing import (Any, Dict, FrozenSet, List, Literal, Mapping, NewType, Optional, Sequence, Set, Tuple, Union)
+from typing import (Annotated, Any, Dict, FrozenSet, List, Literal, Mapping, NewType, Optional, Sequence, Set, Tuple, Union)
 from collections.abc import Sequence as ASeq, Mapping as AMap
 from pyoak.node import ASTNode
 from c11_shared import C11Color as Color
